@@ -34,7 +34,7 @@ def elem_configs(tier, seed):
     return cfgs
 
 
-def run_vector(prop, modname, tier, seed, explanation, min_cfg=60, min_ob=500, cfgs=None, elements=None, elements_eh=False, **kw):
+def run_vector(prop, modname, tier, seed, explanation, min_cfg=60, min_ob=500, cfgs=None, elements=None, elements_eh=False, level="other", **kw):
     ctx = Ctx(prop, tier, seed)
     cfgs = cfgs if cfgs is not None else vector_configs(tier, seed)
     corpus.run(ctx, modname, "rule", cfgs, **kw)
@@ -49,4 +49,4 @@ def run_vector(prop, modname, tier, seed, explanation, min_cfg=60, min_ob=500, c
         ctx.count("element_configurations", len(ecfgs))
     ctx.floor("configurations", len(cfgs), min_cfg)
     ctx.floor("obligations", ctx.obligations, min_ob)
-    return finish(ctx, "other", explanation, ASSUME, TRUSTED, "python3 -m cv check %s --tier %s" % (prop, tier))
+    return finish(ctx, level, explanation, ASSUME, TRUSTED, "python3 -m cv check %s --tier %s" % (prop, tier))
